@@ -12,7 +12,7 @@ use vcommon::report::{guard, run_parallel, Report, RunCfg};
 pub fn run(a: &Args) -> Report {
     let decls = crate::gen::decls();
     let docs_feature = cfg!(feature = "docs");
-    let cfg = RunCfg { threads: a.u("threads", 16) as usize, cases: decls.len() as u64, first_case: 0, max_secs: 3600.0 };
+    let cfg = RunCfg { threads: a.u("threads", 16) as usize, cases: decls.len() as u64, first_case: 0, max_secs: 3600.0, progress: None };
     let mut total = Report::default();
     total.count(if docs_feature { "build_docs_on" } else { "build_docs_off" }, 1);
     let body = run_parallel(&cfg, |i, rep| {
